@@ -78,7 +78,9 @@ def dlayxs_container(niso, ng, nkf, dummy2, x, y):
     precursor groups of an isotope point at its first family), ng groups; decay constants x[f], spectra x[f] + g,
     yields y[k] + f + 10 g"""
     d = DlayxsBox()
-    nfam = niso * nkf
+    nkfs = list(nkf) if isinstance(nkf, (list, tuple)) else [nkf] * niso  # families per isotope (may differ between isotopes)
+    first = [sum(nkfs[:k]) for k in range(niso)]
+    nfam = sum(nkfs)
     m = d.metadata
     m["label"], m["numEnergyGroups"], m["numFamilies"], m["dummy"] = "DLAYXS", ng, nfam, 0
     m["nuclideIDs"] = NAMES[:niso]
@@ -88,15 +90,15 @@ def dlayxs_container(niso, ng, nkf, dummy2, x, y):
     m["delayEmissionSpectrum"] = np.array(chi)
     d.neutronEnergyUpperBounds = np.array([x[4], x[5]][:ng])
     m["minEnergy"] = x[6]
-    m["nkfam"], m["recordsToSkip"] = [nkf] * niso, [k for k in range(niso)]
+    m["nkfam"], m["recordsToSkip"] = list(nkfs), [k for k in range(niso)]
     m["dummy2"] = dummy2
     fams, nu = [], []
     for k in range(niso):
-        fam = [k * nkf + (p if p < nkf else 0) + 1 for p in range(6)]
+        fam = [first[k] + (p if p < nkfs[k] else 0) + 1 for p in range(6)]
         dn = DelayedNeutronData(ng, 6)
         dn.precursorDecayConstants = np.array([lam[f - 1] for f in fam])
         dn.delayEmissionSpectrum = np.array([[chi[g][f - 1] for g in range(ng)] for f in fam])
-        vals = [[(y[k] + p + 10.0 * g if p < nkf else 0.0) for g in range(ng)] for p in range(6)]
+        vals = [[(y[k] + p + 10.0 * g if p < nkfs[k] else 0.0) for g in range(ng)] for p in range(6)]
         dn.delayNeutronsPerFission = np.array(vals)
         key = Directory.byMcc3Id[NAMES[k]]
         d[key] = dn
@@ -111,9 +113,10 @@ def dlayxs_io(mode, st, d):
 
 
 def record_sizes(niso, ng, nkf, ndummy):
-    nfam = niso * nkf
+    nkfs = list(nkf) if isinstance(nkf, (list, tuple)) else [nkf] * niso
+    nfam = sum(nkfs)
     sizes = [6, 4 * 4, 8 * niso + 4 * nfam + 4 * nfam * ng + 4 * (ng + 1) + 4 * niso + 4 * niso + 4 * ndummy]
-    sizes.extend([4 * nkf * ng + 4 * 6] * niso)
+    sizes.extend([4 * nkfs[k] * ng + 4 * 6 for k in range(niso)])
     return sizes
 
 
@@ -185,6 +188,45 @@ def dlayxs_rewrite_of_what_was_read_is_the_same_file(niso: int, ng: int, nkf: in
     st.seek(0)
     back = DlayxsBox()
     dlayxs_io("rb", st, back).readWrite()
+    st2 = memstream()
+    dlayxs_io("wb", st2, back).readWrite()
+    assert st2.nwrites() == st.nwrites(), "same number of records"
+    for k in range(st.nwrites()):
+        assert st2.written(k) == st.written(k), "same bytes"
+
+
+# ----------------------------------------------------------------------------- widened shapes (assumption review)
+@lemma(gen=dict(G_DL, w=(0, 2)), overrides=OVERRIDES)
+def dlayxs_isotopes_with_different_numbers_of_families_round_trip(w: int, ng: int, x0: float, x1: float, x2: float, x3: float, x4: float, x5: float,
+                                                                  x6: float, y0: float, y1: float):
+    """the two lemmas above give every isotope the SAME number of families.  NKFAM is a per-isotope entry: two isotopes with
+    (2, 1), (1, 2), (3, 1) families - the yield records then differ in length and the family numbers of the second isotope
+    start after those of the first: record lengths, yields, family numbers read back; write(read(file)) == file"""
+    w, ng = choose(w, 0, 2), choose(ng, 1, 2)
+    nkfs = [(2, 1), (1, 2), (3, 1)][w]
+    x, y = [x0, x1, x2, x3, x4, x5, x6], [y0, y1]
+    d, lam, chi, fams, nu = dlayxs_container(2, ng, nkfs, [], x, y)
+    st = memstream()
+    dlayxs_io("wb", st, d).readWrite()
+    sizes = record_sizes(2, ng, nkfs, 0)
+    assert st.nwrites() == 3 * len(sizes)
+    for r in range(len(sizes)):
+        (count,) = struct.unpack("i", st.written(3 * r))
+        assert count == sizes[r], "record length as the file structure prescribes"
+    st.seek(0)
+    back = DlayxsBox()
+    dlayxs_io("rb", st, back).readWrite()
+    m = back.metadata
+    assert list(m["nkfam"]) == list(nkfs) and m["numFamilies"] == sum(nkfs)
+    for k in range(2):
+        key = Directory.byMcc3Id[NAMES[k]]
+        dn = back[key]
+        assert list(back.nuclideFamily[key]) == fams[k], "family numbers read back"
+        for p in range(6):
+            assert eq(dn.precursorDecayConstants[p], lam[fams[k][p] - 1]), "decay constant of the isotope's family"
+            for g in range(ng):
+                assert eq(dn.delayNeutronsPerFission[p, g], nu[k][p][g]), "yield read back"
+                assert eq(dn.delayEmissionSpectrum[p, g], chi[g][fams[k][p] - 1]), "spectrum of the isotope's family"
     st2 = memstream()
     dlayxs_io("wb", st2, back).readWrite()
     assert st2.nwrites() == st.nwrites(), "same number of records"
